@@ -38,6 +38,7 @@ structure GSt where
 
 /-! field assignments `d.f = v` (kept as functions so that the generated terms stay small) -/
 def GSt.setOctave (d : GSt) (v : Int) : GSt := { d with octave := v }
+def GSt.setMulti (d : GSt) (v : List Int) : GSt := { d with multi := v }
 def GSt.setSemitone (d : GSt) (v : Int) : GSt := { d with semitone := v }
 def GSt.setMapping (d : GSt) (v : Int) : GSt := { d with mapping := v }
 def GSt.setChannel (d : GSt) (v : Int) : GSt := { d with channel := v }
@@ -150,7 +151,8 @@ def toG (d : Dev) (o : List Out := []) : GSt :=
 /-- the model's result (state, outputs) as a `GSt`; `o` is what had been sent before -/
 def toGR (r : Dev × List Out) (o : List Out := []) : GSt := { toG r.1 with out := o ++ r.2 }
 
-/-- `d.Multinote()` — modelled (it ranges over a map and sorts), not translated -/
+/-- `d.Multinote()` as the model has it; the translation `Gen.Body.Multinote` of the source is proved equal to it
+    (`BodiesTie.Multinote_eq`).  `sort.Ints` is `sortInts` (ascending). -/
 def multinoteP (g : GSt) : GSt :=
   let pressed := sortInts (g.noteTr.map (fun p => (p.2.1 : Int)))
   match pressed with
